@@ -193,8 +193,10 @@ def _sig(ret, types):
     return "%s(%s)" % (ret, ", ".join(types))
 
 
-def _decl_lines(spec, name):
-    """Lines for the mock class / the interface.  Returns (iface_lines, mi_lines, m_lines)."""
+def _decl_lines(spec, name, std="c++17"):
+    """Lines for the mock class / the interface.  Returns (iface_lines, mi_lines, m_lines).
+    docs/reference.md (MAKE_MOCK): the arity-deducing macros handle nullary functions only from C++20 on
+    (or with TROMPELOEIL_HAS_GCC_PP and -std=gnu++NN); below that a nullary function uses MAKE_MOCK0."""
     types = [ctype(m) for m in modes_of(spec)]
     n = len(types)
     rt = ret_type(spec)
@@ -208,7 +210,7 @@ def _decl_lines(spec, name):
         return iface, mi, []
 
     def mk(const, ret, tys):
-        if spec["decl"] == "auto":
+        if spec["decl"] == "auto" and (tys or std not in ("c++11", "c++14", "c++17")):
             return "  MAKE_%sMOCK(%s, auto (%s) -> %s);" % ("CONST_" if const else "", name, ", ".join(tys), ret)
         return "  MAKE_%sMOCK%d(%s, %s);" % ("CONST_" if const else "", len(tys), name, _sig(ret, tys))
 
@@ -563,12 +565,12 @@ def emit_driver(spec, idx, name):
     return "\n".join(L), ids
 
 
-def emit_tu(specs, title="", support_include='#include "p_support.hpp"'):
+def emit_tu(specs, title="", support_include='#include "p_support.hpp"', std="c++17"):
     """Render a list of function specs into one translation unit.  Returns (source, [ids per function])."""
     names = ["f%d" % i for i in range(len(specs))]
     iface, mi, mm = [], [], []
     for i, s in enumerate(specs):
-        a, b, c = _decl_lines(s, names[i])
+        a, b, c = _decl_lines(s, names[i], std)
         iface += a
         mi += b
         mm += c
